@@ -6,8 +6,10 @@
 //! printed by `rustc +nightly -Zunpretty=expanded` (or `XE` if the expansion failed).
 //!
 //! Every shape needs a compilation, so ALL shapes of a run go into ONE generated program (one function pair
-//! per shape, one output line per function); if that program does not compile, every shape is compiled on
-//! its own so that the failing shapes are known exactly.  The library under test is compiled from
+//! per shape, one output line per function; the hand-written version runs first, panics are caught per
+//! function); if that program does not compile or crashes (stack overflow, abort, timeout), every shape is
+//! compiled and run on its own so that the failing shapes are known exactly.  A missing output line is
+//! reported as `-999` (macro version) / `-998` (hand-written version) so that it never compares equal.  The library under test is compiled from
 //! `$C20_REPO/rlib/lambda/src/lib.rs` (default /repo) with plain rustc (stable for the run, nightly for the
 //! expansion); all files live under `$C20_WORK` (default /verif/harness/target/c20-work), never in the repo.
 use std::fmt::Write as _;
